@@ -391,6 +391,12 @@ def wicks(expr, rules: Rules = None, simplify_kronecker_deltas: bool = False):
         for factor in expr.args:
             if factor.is_commutative:
                 c_part.append(factor)
+            elif isinstance(factor, Pow) and \
+                    isinstance(factor.base, FermionicOperator) and \
+                    factor.exp.is_Integer and factor.exp > 1:
+                # sympy collects adjacent identical operators in a power:
+                # the square of a creator / annihilator vanishes
+                return S.Zero
             else:
                 op_string.append(factor)
 
